@@ -5,7 +5,7 @@ CONSTANTS
   Sentinel = TRUE
   EmitRows = FALSE
   Mode = "content"
-  NSlices = 8
-  Slice = 5
+  NSlices = 64
+  Slice = 13
 INVARIANTS D_InSpace D_Design Emit
 CHECK_DEADLOCK FALSE
